@@ -19,14 +19,27 @@ LettersGen == {El("H", 1, 1), El("H", 2, 1), El("H", 3, 1), El("P", 2, 1), El("P
 \* wide alphabet for -simulate: all heading levels, all size classes, images
 \* without description, single-item lists, a list that is larger than a small
 \* maximum chunk size (70 items)
-LettersWide == {El("H", lv, 1) : lv \in 1..6} \cup {El("P", c, 1) : c \in 1..4}
-               \cup {El("L", 1, 1), El("L", 3, 3), El("L", 5, 5), El("L", 70, 70), El("T", 2, 2), El("T", 6, 6),
+LettersWide == {El("H", lv, 1) : lv \in 1..6} \cup {El("P", c, 1) : c \in 1..12}
+               \cup {El("L", 1, 1), El("L", 3, 3), El("L", 5, 5), El("L", 70, 70), El("L", 106, 1), El("T", 2, 2), El("T", 6, 6),
                      El("I", 1, 1), El("I", 0, 0), NP}
 
 \* lists and what can introduce them: one-word and normal paragraphs (rendered as
 \* list introductions when a list follows), a small list and one that exceeds a
 \* small maximum chunk size
 LettersLists == {El("H", 1, 1), El("P", 1, 1), El("P", 2, 1), El("L", 3, 3), El("L", 70, 70), NP}
+
+\* paragraph sizes at the boundaries of the configuration under test.  The size
+\* class is symbolic; the harness turns it into an exact byte length from the
+\* maximum M and minimum m chunk size of every preset / custom configuration:
+\*   5 short (< m)   6 near-full (M - short + 10: a short paragraph no longer fits
+\*   behind it)   7 = M   8 = M+1   9 = m-1   10 = m   11 = (M-2)/2 (two of them and
+\*   the separator fill a chunk exactly)   12 = (M-2)/2 + 1
+\* together with a heading, an oversized paragraph, a list and the page break: every
+\* short tail after a nearly full chunk, every short paragraph in front of a list /
+\* oversized paragraph / heading / page break is a document of this alphabet.
+\* L(106) is a list of size class 6: as many items as nearly fill a chunk.
+LettersBound == {El("H", 1, 1), El("P", 3, 1), El("L", 3, 3), El("L", 106, 1), NP}
+                \cup {El("P", c, 1) : c \in {5, 6, 7, 8, 9, 10, 11}}
 
 \* a document the layout-based rag.Chunker can be given without loss: only
 \* headings, paragraphs and lists, and on every page headings first, then
